@@ -12,7 +12,7 @@ func init() {
 			var out []gosym.RunConfig
 			ks := []int64{4}
 			if tier == "thorough" {
-				ks = []int64{4, 5}
+				ks = []int64{4} // five events hit an encoder limit (net.IP of symbolic length after a merge): not registered
 			}
 			for _, k := range ks {
 				for _, f := range []int64{0, 1} {
@@ -29,7 +29,7 @@ func init() {
 			return out
 		},
 		Bounds: func(tier string) []string {
-			return []string{"4 events (thorough: also 5 within a 240 s budget per run) in any order: datagram from one of 3 remotes (two sharing an IP) of length 0..3 with symbolic bytes, Accept, Read, Close of an accepted connection; accept filter absent or 'first byte non-zero'; backlog 1 or 2; one run per (filter, backlog)"}
+			return []string{"4 events in any order: datagram from one of 3 remotes (two sharing an IP) of length 0..3 with symbolic bytes, Accept, Read, Close of an accepted connection; accept filter absent or 'first byte non-zero'; backlog 1 or 2; one run per (filter, backlog)"}
 		},
 		Assume: []string{
 			"the listener is assembled by the harness the way ListenConfig.Listen does after net.ListenUDP (struct literal, counters); Listen's own body, net.ListenUDP and the batch reader are outside the claim",
@@ -45,13 +45,13 @@ func init() {
 			}
 			after := gosym.RunConfig{Name: "after-listener-close", Entry: "VerifAfterListenerClose", Unwind: 8, AssertPrefix: "C12:"}
 			if tier == "thorough" {
-				return []gosym.RunConfig{after, mk(0, 0, 1, 1, 0, 0), mk(0, 1, 1, 1, 0, 0), mk(1, 0, 0, 0, 1, 0), mk(1, 0, 0, 1, 0, 0), mk(1, 1, 0, 1, 0, 300), mk(2, 0, 0, 0, 0, 300)}
+				return []gosym.RunConfig{after, mk(0, 0, 1, 1, 0, 0), mk(0, 1, 0, 1, 0, 0), mk(1, 0, 0, 1, 0, 0), mk(1, 1, 0, 1, 0, 240), mk(2, 0, 0, 0, 0, 240)}
 			}
 			return []gosym.RunConfig{mk(0, 0, 1, 1, 0, 0), mk(0, 1, 0, 1, 0, 0), mk(1, 0, 0, 1, 0, 0), after}
 		},
 		Bounds: func(tier string) []string {
 			return []string{"sequential script: accept one connection, leave one un-accepted, close the listener, then a datagram (symbolic length 1..4 and contents) for the accepted connection and one from a new remote",
-				"listener with (accepted, un-accepted) connections in {(0,0), (0,1), (1,0)} (thorough adds (1,1), (2,0) within a time budget); concurrently: listener Close (in some runs twice), each accepted connection Close, a pending Accept and/or a pending Read (one run per combination, see the run names); every interleaving with the read loop and the socket-closing goroutine"}
+				"listener with (accepted, un-accepted) connections in {(0,0), (0,1), (1,0)} (thorough adds (1,1), (2,0) within a time budget; (1,0) with a pending Read was measured at 3 minutes alone and undecided under load: not registered); concurrently: listener Close (in some runs twice), each accepted connection Close, a pending Accept and/or a pending Read (one run per combination, see the run names); every interleaving with the read loop and the socket-closing goroutine"}
 		},
 		Assume: []string{
 			"the packet socket is a harness model (datagrams from a channel, Close unblocks ReadFrom); the listener is assembled and its two goroutines are started by the harness exactly as ListenConfig.Listen does after net.ListenUDP",
